@@ -78,6 +78,29 @@ CLAIMED["C10"] = dict(
          "losslessness for all models. Keys of the sort/filter functions are recomputed per term by an independent oracle. Inputs are sampled.",
     note=TB + "Sort keys are checked against a python oracle, not a Lean theorem.")
 
+CLAIMED["C01"] = dict(
+    category="proof", design="DESIGN.md §4 C01",
+    technique="Lean 4 proof of Wick's theorem for the Fermi vacuum (concrete operators, Jordan-Wigner Fock space) and of the symbolic recursion wickS (model of _contract_operator_string) incl. the contraction table regenerated from the code; outputs validated by the proved checker",
+    text="Fock.wick_concrete: for every list of creators/annihilators and every reference determinant the first-operator Wick recursion "
+         "equals the vacuum expectation value (CAR proved pointwise). wickS_sound: the symbolic recursion with the elementary contraction "
+         "classes (36-entry table regenerated from _contraction on every run and proved equal to the model by decide), fresh summed indices "
+         "for general-general contractions and the sign (-1)^j evaluates to that expectation value for every admissible orbital assignment; "
+         "hasFull_sound: the prefilter never discards a contributing string; wickTerm_sound: tensors x operator product with normal-ordered "
+         "groups, summed over the contracted indices. Every wicks() result explored (with and without delta evaluation, library inputs "
+         "included) is validated against the model's result by checkEquiv (proved sound); the rules clause is checked term by term.",
+    note=TB + "The operator-string exporter reads sympy's Mul/NO argument order; sympy's NO sorting is compared only through results. "
+         "Normal ordering of occ/virt operators is taken as the definition of NO (sign x quasi-creators left). Known finding: general-index operator inside NO.")
+
+CLAIMED["C16"] = dict(
+    category="translation_validation", design="DESIGN.md §4 C16",
+    technique="Lean 4 proof that a well-scoped nested contraction tree computes the flat term (tree_flat, treeOK_sound) + per-run validation of every returned scheme by the Lean checker treeOK; scaling/limits recomputed independently",
+    text="Every scheme returned by optimize_contractions / unoptimized_contraction that is explored is converted to a nested contraction "
+         "tree and accepted only if the Lean function treeOK holds (same objects with multiplicity, each summed index exactly once, no "
+         "index summed while it still occurs outside the subtree); treeOK_sound proves for all tensor values, orbital models and target "
+         "assignments that the step-by-step evaluation equals the value of the term. Requested target order, per-step scaling, the limits "
+         "and the comparison with the single simultaneous contraction are recomputed by an oracle. Two genuine defects were repaired (fix: commits).",
+    note=TB + "Scheme->tree conversion and the scaling/limit oracle are python (harness/props/c16.py). Inputs are sampled.")
+
 PENDING = {
 }
 
